@@ -215,6 +215,54 @@ def fnCallTypeError (name : String) (args : List Kind) : Option TErr :=
   | "neigh_edges_of", _ | "N_of", _ => some .wrongNumberOfArguments
   | _, _ => some .nonExistentFunction
 
+/-! ### destructuring patterns `(a, b, _) in iterator` -/
+
+/-- `IterableSet::variable_types`: the static rule.  `nvars` counts ALL slots of the pattern, `_`
+placeholders included. -/
+def patternCheck (iterKind : Kind) (tuple : Bool) (nvars : Nat) : Except TErr Unit :=
+  match iterKind with
+  | .iter elem =>
+    if !tuple then .ok ()
+    else match elem with
+      | .iter _ => .ok ()      -- rows of a nested array: the arity is not known statically
+      | e => match e.canSpreadInto with
+        | none => .error .unspreadable
+        | some ks => if nvars > ks.length then .error .spreadError else .ok ()
+  | _ => .error .wrongArgument
+
+/-- what one runtime element spreads into -/
+inductive Comp where
+  | scalar             -- `to_primitive_set` fails: `Unspreadable`
+  | parts (n : Nat)    -- a tuple / edge / row with `n` components
+  deriving Repr, DecidableEq
+
+/-- `recursive_set_resolver` + `apply_tuple` over the runtime elements, in order: the first element
+that cannot be destructured decides (`Other` = "Cannot destructure tuple of length … in … elements") -/
+def patternDyn (tuple : Bool) (nvars : Nat) : List Comp → Option TErr
+  | [] => none
+  | c :: cs =>
+    if !tuple then none
+    else match c with
+      | .scalar => some .unspreadable
+      | .parts n => if nvars > n then some .other else patternDyn tuple nvars cs
+
+/-! ### static declaredness of compound variables -/
+
+def allSome {β : Type} : List (Option β) → Option (List β)
+  | [] => some []
+  | none :: _ => none
+  | some x :: xs => (allSome xs).map (x :: ·)
+
+/-- the `CompoundVariable` arm of `type_check` (declaredness part): a reference `base_i₁…_iₙ` is
+accepted iff a declaration introduces the family `(base, n)`, or every index is a literal and the
+flattened name is a declared plain variable.  `idx`: the printed fragment of a literal index, `none`
+for any other index expression. -/
+def compoundDeclared (families : List (String × Nat)) (statics : List String) (base : String) (idx : List (Option String)) : Bool :=
+  families.contains (base, idx.length) ||
+    (match allSome idx with
+     | some frags => statics.contains (String.ofList (base.toList ++ '_' :: (String.intercalate "_" frags).toList))
+     | none => false)
+
 /-- a runtime kind `d` is compatible with a static kind `s`: `Any` admits everything, iterables and
 tuples are compared by constructor only (their parameters are a static approximation:
 `range` is typed `Integer[]`, the position of `enumerate` is typed `PositiveInteger` and is a
